@@ -237,6 +237,12 @@ impl Check for Fungible {
     fn components(&self) -> serde_json::Value {
         serde_json::json!({"real": ["stellar_tokens::fungible::{Base::*, burnable}", "soroban host (storage, auth, TTL)"], "stub": ["Wallet (accept-all signature check; invocation-tree matching stays real)"]})
     }
+    fn dup_ok(&self, _s: &Step) -> bool {
+        true
+    }
+    fn reorder_ok(&self) -> bool {
+        true
+    }
     fn property_of(&self, check: &str) -> std::vec::Vec<&'static str> {
         if check.starts_with("conserve.") || check.starts_with("events.") || check == "fail.no_trace" {
             vec!["C01"]
